@@ -321,7 +321,7 @@ def r20_6(prog, rep):
                 if not (isinstance(x, dict) and x.get("k") == "call"):
                     continue
                 fn = x.get("fn")
-                if fn == "memcpy" and show(strip_casts(cfg.resolve(x["a"][0]))).replace(" ", "") in ("&cache[0]", "cache"):
+                if fn == "memcpy" and show(strip_casts(cfg.resolve(x["a"][0]))).replace(" ", "") in ("&cache[0]", "cache", "(cache+0)"):
                     st = {"LIVE"}
                 elif fn in ("MergeExternal", "MergeInternal", "MergeInPlace"):
                     st = {"DEAD"}
@@ -386,7 +386,7 @@ def r20_4(prog, rep):
                     continue
                 for a in args[:-1]:
                     for n in walk(a):
-                        if n.get("k") == "mem" and n.get("f") == "start" and lv(n) and lv(n).count(".") == 1 and show(strip_casts(a)) in (lv(n), "&array[%s]" % lv(n)):
+                        if n.get("k") == "mem" and n.get("f") == "start" and lv(n) and lv(n).count(".") == 1 and show(strip_casts(a)).replace(" ", "") in (lv(n), "&array[%s]" % lv(n), "(array+%s)" % lv(n)):
                             r = lv(n).split(".")[0]
                             if r.startswith("block"):
                                 sites.append((b, i, line, r, c.get("fn")))
